@@ -168,3 +168,55 @@ func VerifHarness_C10_O3() {
 // (same obligation as C09/O1, whose validator-set history has a removed and a
 // not-yet-effective validator).
 func VerifHarness_C10_O4() { VerifHarness_C09_O1() }
+
+
+// C10/O5 — every block's peer-set hash is the hash of the set effective at its
+// round-received: GetFrame takes the peers of the round's set, NewBlockFromFrame
+// hashes exactly those.  Two-entry validator-set history (change effective from
+// a chosen round), frame built for a chosen decided round before / at / after
+// the change.
+func VerifHarness_C10_O5() {
+	vn := verifNewNet(3, 100)
+	h := vn.h
+	from := 1 + verifChoice("from", 3)
+	small := peers.NewPeerSet(vn.peers[:2])
+	if err := h.Store.SetPeerSet(from, small); err != nil {
+		panic(err)
+	}
+	rr := 1 + verifChoice("roundReceived", 3)
+	ri := NewRoundInfo()
+	w := verifAbstractEvent(vn, "w", 0, 3)
+	w.Body.Timestamp = verifNondetInt64("ts")
+	ri.CreatedEvents["w"] = roundEvent{Witness: true, Famous: cm.True}
+	ri.decided = true
+	h.Store.SetRound(rr, ri)
+	frame, err := h.GetFrame(rr)
+	verifAssert("frame-built", err == nil)
+	if err != nil {
+		return
+	}
+	want := vn.set
+	if rr >= from {
+		want = small
+	}
+	same := len(frame.Peers) == len(want.Peers)
+	if same {
+		for i := range want.Peers {
+			if frame.Peers[i] != want.Peers[i] {
+				same = false
+			}
+		}
+	}
+	verifAssert("frame-peers-are-the-set-effective-at-round-received", same)
+	verifAssert("frame-carries-the-whole-set-history", len(frame.PeerSets) == 2)
+	b, berr := NewBlockFromFrame(4, frame)
+	wh, _ := want.Hash()
+	verifAssert("block-peers-hash-is-hash-of-that-set", berr == nil && string(b.PeersHash()) == string(wh))
+	other := vn.set
+	if rr < from {
+		other = small
+	}
+	oh, _ := other.Hash()
+	verifAssert("and-not-of-the-other-set", string(b.PeersHash()) != string(oh))
+	verifReach("end")
+}
